@@ -110,6 +110,17 @@ def feasible(path):
     return not any(trivial(e, pol) is False for e, pol in path.conds)
 
 
+def simplified(paths_):
+    """feasible paths, with the conditions that constants decide (in the taken direction) removed"""
+    out = []
+    for p in paths_:
+        if not feasible(p):
+            continue
+        p.conds = [(e, pol) for e, pol in p.conds if trivial(e, pol) is not True]
+        out.append(p)
+    return out
+
+
 def subst(expr, env):
     if expr is None:
         return None
